@@ -6,7 +6,6 @@ package runtime
 
 import (
 	"bytes"
-	"errors"
 	"reflect"
 	"runtime"
 	"slices"
@@ -301,9 +300,6 @@ func (vm *VM) run() (Addr, bool) {
 						vm.renderer = newRenderer(&strings.Builder{})
 					} else if ast.Format(b) != fn.Format {
 						if fn.Format == ast.FormatMarkdown && ast.Format(b) == ast.FormatHTML {
-							if vm.env.conv == nil {
-								panic(&fatalError{env: vm.env, msg: errors.New("no Markdown convert available")})
-							}
 							vm.renderer = newRenderer(&bytes.Buffer{})
 						} else {
 							vm.renderer = newRenderer(vm.renderer.out)
@@ -339,9 +335,6 @@ func (vm *VM) run() (Addr, bool) {
 				vm.renderer = newRenderer(&strings.Builder{})
 			} else if ast.Format(b) != fn.Format {
 				if fn.Format == ast.FormatMarkdown && ast.Format(b) == ast.FormatHTML {
-					if vm.env.conv == nil {
-						panic(&fatalError{env: vm.env, msg: errors.New("no Markdown convert available")})
-					}
 					vm.renderer = newRenderer(&bytes.Buffer{})
 				} else {
 					vm.renderer = newRenderer(vm.renderer.out)
@@ -1609,7 +1602,14 @@ func (vm *VM) run() (Addr, bool) {
 							vm.setString(1, out.String())
 						} else if vm.fn.Format == ast.FormatMarkdown && ast.Format(b) == ast.FormatHTML {
 							out := vm.renderer.Out().(*bytes.Buffer)
-							err := vm.env.conv(out.Bytes(), call.renderer.out)
+							var err error
+							if vm.env.conv != nil {
+								err = vm.env.conv(out.Bytes(), call.renderer.out)
+							} else {
+								// There is no converter: show the Markdown code
+								// as showInHTML does for a markdown value.
+								err = htmlEscape(newStringWriter(call.renderer.out), out.String())
+							}
 							if err != nil {
 								panic(&fatalError{env: vm.env, msg: err})
 							}
